@@ -44,6 +44,8 @@ def long_frame(df: int, ca: int, addr: int, me: bytes) -> bytes:
 
 
 def char_code(c: str) -> int:
+    if c == "#":
+        return 0  # an unassigned code (rendered as '#')
     if "A" <= c <= "Z":
         return ord(c) - ord("A") + 1
     if "0" <= c <= "9":
@@ -119,10 +121,10 @@ def me_airpos(tc, alt_ft, lat, lon, odd):
     return bytes(me)
 
 
-def me_velocity(ew_dir, ew, ns_dir, ns, vr_sign, vr):
+def me_velocity(ew_dir, ew, ns_dir, ns, vr_sign, vr, subtype=1):
     me = bytearray(7)
     setbits(me, 1, 5, 19)
-    setbits(me, 6, 8, 1)
+    setbits(me, 6, 8, subtype)
     setbits(me, 14, 14, ew_dir)
     setbits(me, 15, 24, ew)
     setbits(me, 25, 25, ns_dir)
